@@ -47,10 +47,13 @@ class VmIo:
         for field in string.Formatter().parse(format_str):
             name = field[1]
             if name is not None and len(name) > 0 and not name.isdecimal():
-                reg = Register.from_string(name)
-                if reg is not None:
-                    named[name] = self._reg.get_by_enum(reg)
-                else:
-                    named[name] = self._call_stack.get_variable(name)
+                # A variable first: it may be called "name", "power", "Hue"
+                # or anything else that also spells a register of the VM.
+                value = self._call_stack.get_variable(name)
+                if value is None:
+                    reg = Register.from_string(name)
+                    if reg is not None:
+                        value = self._reg.get_by_enum(reg)
+                named[name] = value
         output.out(format_str.format(*self._unnamed, **named))
         self._unnamed.clear()
